@@ -29,9 +29,15 @@ Definition mk_script (w : bytes) (cuts : list Z) (f : finspec) : script :=
   end.
 
 (* Adler-32 style digest so that large frames are compared without literals *)
+Fixpoint digest_aux (l : bytes) (s1 s2 : Z) : Z * Z :=
+  match l with
+  | [] => (s1, s2)
+  | b :: r => let s1' := s1 + Z.of_N b in digest_aux r s1' (s2 + s1')
+  end.
+(* sums kept exact, reduced once at the end: equal to Adler's running reduction *)
 Definition digest (l : bytes) : Z * Z :=
-  let '(s1, s2) := fold_left (fun st b => let s1 := (fst st + Z.of_N b) mod 65521 in (s1, (snd st + s1) mod 65521)) l (1, 0) in
-  (blen l, s1 + 65536 * s2).
+  let '(s1, s2) := digest_aux l 1 0 in
+  (blen l, s1 mod 65521 + 65536 * (s2 mod 65521)).
 
 Inductive codec :=
 | CLF (c : lfcfg) | CVI (max : Z) | CDL (max : Z) (d : bytes) (strip : bool) | CFX (len : Z)
